@@ -268,7 +268,12 @@ package stack
 //@ func ScanSnapshot
 //@   modifies ghost:fetched at in; ghost:dataReads at in; ghost:wlen, ghost:wdata, ghost:werrs at prefix
 //@   gvar rdErr error = zero
+//@   gvar held int = zero
+//@   gvar declined int = zero
 //@   update after-call readLine#1: rdErr := ret1
+//@   update after-call scan#1: held := held + (ret0 ? len(d) : 0); declined := declined + ((!ret0 && s.state == looking) ? len(d) : 0)
+//@   at-return [everyByteForwardedHeldOrReturned C02 C07] opts != nil && s != nil && werrs(prefix) == old(werrs(prefix)) ==> old(fetched(in)) + (wlen(prefix) - old(wlen(prefix))) + held + len(result1) == fetched(in)
+//@   at-return [forwardedExactlyWhatTheScannerDeclined C02 C07] opts != nil && s != nil && werrs(prefix) == old(werrs(prefix)) ==> wlen(prefix) - old(wlen(prefix)) == declined
 //@   assert after-call nameArguments#1: [namingOnlyWhenAsked C15] opts.NameArguments
 //@   assert after-call guessPaths#1: [pathGuessingOnlyWhenAsked C18] opts.GuessPaths
 //@   assert after-call augment#1: [augmentOnlyWhenAsked C19] opts.AnalyzeSources
@@ -289,6 +294,7 @@ package stack
 //@   loop 0: invariant err != nil ==> pos(r) == fetched(in)
 //@   loop 0: invariant old(fetched(in)) + (wlen(prefix) - old(wlen(prefix))) <= pos(r)
 //@   loop 0: invariant s.state == looking && werrs(prefix) == old(werrs(prefix)) ==> old(fetched(in)) + (wlen(prefix) - old(wlen(prefix))) == pos(r)
+//@   loop 0: invariant [accounting C02 C07] held >= 0 && declined >= 0 && (werrs(prefix) == old(werrs(prefix)) ==> old(fetched(in)) + (wlen(prefix) - old(wlen(prefix))) + held == pos(r) && wlen(prefix) - old(wlen(prefix)) == declined)
 //@   loop 0: invariant [dumpStartedMeansProgress C03] s.state != looking ==> old(fetched(in)) + (wlen(prefix) - old(wlen(prefix))) < pos(r)
 //@   loop 0: invariant [errIsReaderError C10] (rdErr != nil && rdErr != io.EOF ==> err == rdErr) && (err == nil ==> rdErr == nil)
 //@   loop 0: invariant werrs(prefix) >= old(werrs(prefix)) && (err == nil ==> werrs(prefix) == old(werrs(prefix)))
